@@ -1,6 +1,8 @@
 package rules
 
 import (
+	"go/token"
+	"go/types"
 	"os"
 	"sort"
 	"strings"
@@ -204,6 +206,8 @@ func (c *Ctx) ruleExplicit(rule string, mod *core.Module, roots []*ssa.Function,
 			c.R.Bad(rule, k, pos, "explicit panic controlled by the data argument", "a condition that decides this panic depends on the value passed to the operation: bad data panics instead of yielding an error")
 		case c.internalInvariant(mod, s.fn, s.p):
 			c.R.Ok(rule, k, pos, "explicit panic (internal invariant)", "the controlling condition is excluded by a fact established at every call site / by the type parameter's constraint")
+		case c.checkedAtLink(mod, s.fn, reach) != "":
+			c.R.Ok(rule, k, pos, "explicit panic (schema-state guard, evaluated when the schema is linked)", c.checkedAtLink(mod, s.fn, reach))
 		case stateGuardsExcused:
 			c.R.Ok(rule, k, pos, "explicit panic (schema-state guard)", "controlled only by schema state (unlinked reference, missing root, mis-built table): excluded for well-formed schemas (A1/A2)")
 		default:
@@ -211,6 +215,88 @@ func (c *Ctx) ruleExplicit(rule string, mod *core.Module, roots []*ssa.Function,
 				"the guard depends only on the schema's own state; a description from a plugin that leaves the schema in that state is accepted by the loader (or reaches this code during loading) and then panics in the engine")
 		}
 	}
+}
+
+// checkedAtLink: the schema-state panic in fn cannot be the first one a received description meets in the data API,
+// because linking - which every loader runs over everything it returns (R-FORWARD, R-LOADLINK), inside its recover scope -
+// evaluates the same condition first:
+//
+//	(1) fn is called by ScopeSchema.ApplyNamespace on the self-namespace branch (each path of that branch passes the
+//	    call): a scope with that defect never leaves the loader; or
+//	(2) every call of fn that the data API can reach sits under `recv.F == nil` for a field F of a receiver whose
+//	    ApplyNamespace method leaves F non-nil on every return: after linking the data API no longer gets there.
+//
+// Assumes what every schema-state classification assumes: the schema is not modified after it was linked.
+func (c *Ctx) checkedAtLink(mod *core.Module, fn *ssa.Function, reach map[*ssa.Function]bool) string {
+	if mod != c.M {
+		return ""
+	}
+	// (1)
+	for _, link := range c.M.Funcs {
+		if link.Name() != "ApplyNamespace" || link.Signature.Recv() == nil || !strings.Contains(c.M.Key(link), "ScopeSchema") {
+			continue
+		}
+		for _, b := range link.Blocks {
+			for _, in := range b.Instrs {
+				call, ok := in.(*ssa.Call)
+				if !ok || call.Call.StaticCallee() != fn {
+					continue
+				}
+				for _, cond := range core.CondsAt(b) {
+					bin, ok := cond.V.(*ssa.BinOp)
+					if !ok || bin.Op != token.EQL || !cond.True {
+						continue
+					}
+					_, xIsParam := bin.X.(*ssa.Parameter)
+					_, yIsParam := bin.Y.(*ssa.Parameter)
+					if xIsParam || yIsParam {
+						return "linking a scope to itself calls " + fn.Name() + "() first (" + c.M.Key(link) + ", on the self-namespace branch), inside the loaders' recover scope: a received description with this defect is reported as invalid and never reaches the data API"
+					}
+				}
+			}
+		}
+	}
+	// (2)
+	flow := core.NewNonNilFlow(c.M)
+	sites, field := 0, ""
+	var recvT *types.Named
+	for g := range reach {
+		for _, b := range g.Blocks {
+			for _, in := range b.Instrs {
+				call, ok := in.(*ssa.Call)
+				if !ok || call.Call.StaticCallee() != fn {
+					continue
+				}
+				sites++
+				guarded := false
+				for _, cond := range core.CondsAt(b) {
+					v, neq, isNil := core.NilCmp(cond.V)
+					if !isNil || neq == cond.True {
+						continue
+					}
+					if ld, ok := core.Unwrap(v).(*ssa.UnOp); ok {
+						if fa, ok := ld.X.(*ssa.FieldAddr); ok && len(g.Params) > 0 && fa.X == ssa.Value(g.Params[0]) {
+							f := fieldName(fa.X.Type(), fa.Field)
+							if field == "" || field == f {
+								field, guarded, recvT = f, true, structOf(fa.X.Type())
+							}
+						}
+					}
+				}
+				if !guarded {
+					return ""
+				}
+			}
+		}
+	}
+	if sites == 0 || field == "" || recvT == nil {
+		return ""
+	}
+	link := c.methodFn(recvT, "ApplyNamespace")
+	if link == nil || !flow.Ensures(link, field) {
+		return ""
+	}
+	return sprintf("the data API reaches %s only where %s.%s is nil (%d call sites), and %s leaves that field non-nil on every return: after linking, which every loader runs inside its recover scope, the call is not made again - a description with this defect fails the load", fn.Name(), recvT.Obj().Name(), field, sites, c.M.Key(link))
 }
 
 // panicDesc: a position-free description of the innermost controlling condition.
